@@ -217,7 +217,12 @@ class MultitaskGaussianLikelihood(_MultitaskGaussianLikelihoodBase):
                 )
                 self.register_constraint("raw_task_noises", noise_constraint)
                 if noise_prior is not None:
-                    self.register_prior("raw_task_noises_prior", noise_prior, lambda m: m.task_noises)
+                    self.register_prior(
+                        "raw_task_noises_prior",
+                        noise_prior,
+                        lambda m: m.task_noises,
+                        lambda m, v: m._set_task_noises(v),
+                    )
                 if task_prior is not None:
                     raise RuntimeError("Cannot set a `task_prior` if rank=0")
             else:
@@ -234,7 +239,7 @@ class MultitaskGaussianLikelihood(_MultitaskGaussianLikelihoodBase):
             self.register_parameter(name="raw_noise", parameter=torch.nn.Parameter(torch.zeros(*batch_shape, 1)))
             self.register_constraint("raw_noise", noise_constraint)
             if noise_prior is not None:
-                self.register_prior("raw_noise_prior", noise_prior, lambda m: m.noise)
+                self.register_prior("raw_noise_prior", noise_prior, lambda m: m.noise, lambda m, v: m._set_noise(v))
 
         self.has_global_noise = has_global_noise
         self.has_task_noise = has_task_noise
